@@ -28,6 +28,8 @@ func checkC11(p *Prog, r *Report) {
 	c03PoolKey(p, r, "C11.R6")
 	// "gaps in weather data fail only that line": the gap test of the date-keyed readers must see gaps at a year end too (shared with C04.R2c, without its coverage clause, which is the known roll-over finding)
 	c04Carried(p, r, "C11.R7", false)
+	// an unreadable per-run file is an error of that run only if the open helper hands the error back
+	sessionOpenRule(p, r, "C11.R8")
 }
 
 // runReachableDecls maps the CHA run-reachable slice back to declarations.
